@@ -36,13 +36,15 @@ Definition obs_eqb (a b : obs) : bool :=
 
 (** ** The property, restated on an observation *)
 
-(** what Validate is documented to accept *)
+(** what Validate is documented to accept: positive trusting period, no negative
+    duration, a hex SyncFromHash, and at least one tail policy *)
 Definition valid_spec (p : params) : bool :=
-  match p_hash p with
-  | HBadHex => false
-  | HAt _ => negb (p_trusting p =? 0)%Z
-  | HNone => negb (p_trusting p =? 0)%Z && (negb (p_window p =? 0)%Z || negb (p_from p =? 0))
-  end.
+  (0 <? p_trusting p)%Z && negb (p_window p <? 0)%Z && negb (p_block p <? 0)%Z && negb (p_recency p <? 0)%Z
+  && match p_hash p with
+     | HBadHex => false
+     | HAt _ => true
+     | HNone => negb (p_window p =? 0)%Z || negb (p_from p =? 0)
+     end.
 
 (** the tail is derived from the pruning window and the block time *)
 Definition window_mode (p : params) : bool := hash_unset p && (p_from p =? 0).
@@ -114,31 +116,16 @@ Definition ok16 (c : case16) : bool :=
     A class is a region of the inputs, described by the reason [why] the model
     of the current code gives for the outcome, together with "the implementation
     shows exactly this known misbehaviour" ([agree]); any other failure is class 0. *)
-Definition is_far (w : Z) (oldT headT : Z) : bool :=
-  let D := sat64 (headT + wrapi64 (- w) - oldT) in (0 <? D)%Z && (w <=? D)%Z.
-
-Definition bad_height_class (c : case16) : N :=
-  let p := k_params c in let times := k_times c in
-  if negb (window_mode p) then 0
-  else if (p_window p <? 0)%Z || (p_block p <? 0)%Z then 6   (* F9e: negative durations pass Validate *)
-  else match start_call p times (k_now c) (k_store c) with
-       | inr (_, st1) =>
-         if is_far (p_window p) (tm0 times (s_tail st1)) (tm0 times (net_head times))
-         then 3                                                (* F9b: window/blockTime >= head height *)
-         else 5                                                (* F9d: old tail + diff/blockTime above the network head *)
-       | inl _ => 0
-       end.
-
 Definition region16 (c : case16) : N :=
   let p := k_params c in
   let '(m, w) := start_run p (k_times c) (k_now c) (k_store c) in
   match w with
-  | WDivZero => 1                                            (* F8: blockTime = 0 reaches a division *)
   | WDelete => 2                                             (* F9a: new tail above store head + 1 *)
-  | WZero => bad_height_class c
-  | WFetch => if legit_err c then 0 else bad_height_class c
   | WChunk => 7                                              (* F9f: last re-fetched chunk is the head itself *)
-  | WDone => if negb (keeps_window (Case16 p (k_times c) (k_now c) (k_store c) m)) then 4 else 0  (* F9c *)
+  | WDone =>
+    (* F9c': the estimate is exactly store head + 1, so neither scan runs and the whole store is pruned *)
+    if negb (keeps_window (Case16 p (k_times c) (k_now c) (k_store c) m))
+       && match o_req m with [x] => true | _ => false end then 4 else 0
   | _ => 0
   end.
 
@@ -147,115 +134,3 @@ Definition chk16 (c : case16) : bool * bool * N :=
   let ok := ok16 c in
   (agree, ok, if ok then 0 else if agree then region16 c else 0).
 
-(** ** The oracle and the model: outside the known-finding regions the model's
-    own observation satisfies the property oracle (so, for a store that was one
-    gap-free chain before, [agree] and class 0 imply [ok]) *)
-Lemma valid_spec_eq p : valid_spec p = params_valid p.
-Proof.
-  unfold valid_spec, params_valid, hash_unset.
-  destruct (p_hash p), (p_trusting p =? 0)%Z, (p_window p =? 0)%Z, (p_from p =? 0); reflexivity.
-Qed.
-
-Lemma forallb_in_chain times req :
-  Forall (fun h => 1 <= h <= net_head times) req -> forallb (fun h => in_chain times h) req = true.
-Proof.
-  intros F. apply forallb_forall. intros h Hin. rewrite Forall_forall in F.
-  apply in_chain_spec. apply F. exact Hin.
-Qed.
-
-Lemma keeps_window_superset c :
-  (forall h, st_has (k_store c) h = true -> st_has (o_store (k_obs c)) h = true) -> keeps_window c = true.
-Proof.
-  intros Hs. unfold keeps_window. destruct (_ && _); [|reflexivity].
-  apply forallb_forall. intros h _. destruct (st_has (k_store c) h) eqn:E; [|reflexivity].
-  rewrite (Hs h E). reflexivity.
-Qed.
-
-Lemma store_chain_ok_wf p times now st o :
-  wf (o_store o) (net_head times) -> (s_tail (o_store o) = 0 -> s_tail st = 0 /\ o_out o <> OOk) ->
-  store_chain_ok (Case16 p times now st o) = true.
-Proof.
-  intros [We Wc] Hz. unfold store_chain_ok. cbn [k_store k_obs].
-  destruct (s_extra st); [|reflexivity]. rewrite We.
-  unfold st_empty. destruct (N.eqb_spec (s_tail (o_store o)) 0) as [E|E].
-  - destruct (Hz E) as [Hs Ho]. destruct Wc as [[_ Wh]|Wc]; [|lia].
-    rewrite Wh, Hs. cbn. destruct (o_out o); cbn; auto; contradiction.
-  - destruct Wc as [[Wt _]|Wc]; [contradiction|]. lia.
-Qed.
-
-Theorem model16_ok p times now st :
-  wf st (net_head times) -> net_head times + 2 < two64 ->
-  let c := Case16 p times now st (start_step p times now st) in
-  region16 c = 0 -> ok16 c = true.
-Proof.
-  intros Hwf H64 c. unfold region16, c. cbn [k_params k_times k_now k_store k_obs].
-  unfold ok16. cbn [k_params k_times k_now k_store k_obs]. unfold start_step.
-  pose proof (start_run_facts p times now st Hwf H64) as F.
-  pose proof (start_run_store p times now st Hwf H64) as S.
-  pose proof (start_run_superset p times now st Hwf H64) as U.
-  destruct (start_run p times now st) as [m w]. cbn [fst snd] in *.
-  destruct S as [S1 S2].
-  rewrite valid_spec_eq.
-  destruct w.
-  - (* WDone *)
-    destruct F as (Hv & Ho & Hr & Hn). destruct (S1 ltac:(discriminate)) as [Sw _].
-    destruct (keeps_window _) eqn:K; [|discriminate]. intros _.
-    rewrite Ho, Hv. cbn. rewrite (forallb_in_chain _ _ Hr). rewrite Bool.orb_true_r. cbn.
-    rewrite Bool.andb_true_r. apply store_chain_ok_wf; auto. intros; contradiction.
-  - (* WNoCall *)
-    destruct F as (Hv & -> & He). intros _. cbn. rewrite Hv. cbn.
-    rewrite Bool.orb_true_r. cbn.
-    rewrite keeps_window_superset by (cbn; auto). rewrite Bool.andb_true_r.
-    apply store_chain_ok_wf; cbn; auto. unfold st_empty in He. intros; lia.
-  - (* WInvalid *)
-    destruct F as (Hv & ->). intros _. cbn. rewrite Hv. reflexivity.
-  - (* WInitExpired *)
-    destruct F as (Hv & -> & Hl). intros _. cbn. rewrite Hv. cbn.
-    unfold legit_err at 1. cbn [k_params k_times k_store k_now]. rewrite Hl. cbn.
-    rewrite Bool.orb_true_r. cbn.
-    rewrite keeps_window_superset by (cbn; auto). rewrite Bool.andb_true_r.
-    apply store_chain_ok_wf; cbn; auto. intros; split; [assumption|discriminate].
-  - discriminate.
-  - contradiction.
-  - (* WZero: always a finding *)
-    destruct F as (Hv & Ho & Hh & Hf & init & st1 & SC).
-    unfold bad_height_class. cbn [k_params k_times k_now k_store].
-    unfold window_mode, hash_unset. rewrite Hh, Hf. cbn. rewrite SC.
-    destruct (_ || _); [discriminate|]. destruct (is_far _ _ _); discriminate.
-  - (* WFetch *)
-    destruct F as (Hv & Ho & Hm & init & st1 & SC).
-    destruct (legit_err _) eqn:L.
-    + intros _. rewrite Ho, Hv. cbn.
-      destruct (S1 ltac:(discriminate)) as [Sw Sn].
-      assert (Wm : window_mode p = false).
-      { destruct Hm as [[k [Hk Hc]]|[(Hh & Hf & Hc)|(Hh & Hf)]]; unfold window_mode, hash_unset.
-        - rewrite Hk. reflexivity.
-        - rewrite Hh. cbn. lia.
-        - (* window mode: the error would not be explained by the environment *)
-          exfalso. unfold legit_err in L. cbn [k_params k_times k_now k_store] in L.
-          rewrite Hh, Hf in L. cbn in L. rewrite Bool.orb_false_r in L.
-          unfold start_call in SC. rewrite Hv in SC. cbn [negb] in SC.
-          destruct (st_empty st); cbn in L, SC.
-          + rewrite L in SC. discriminate.
-          + destruct (expired p now (tm0 times (s_head st))); cbn in L.
-            * rewrite L in SC. discriminate.
-            * discriminate. }
-      rewrite Wm. cbn.
-      assert (K : keeps_window (Case16 p times now st m) = true).
-      { unfold keeps_window. cbn [k_params]. rewrite Wm. reflexivity. }
-      rewrite K. rewrite Bool.andb_true_r.
-      apply store_chain_ok_wf; auto. intros E. split; [|rewrite Ho; discriminate].
-      destruct (N.eq_dec (s_tail st) 0); [assumption|]. specialize (Sn ltac:(assumption)). contradiction.
-    + (* not explained by the environment: must be window mode, a finding *)
-      unfold bad_height_class. cbn [k_params k_times k_now k_store].
-      destruct Hm as [[k [Hk Hc]]|[(Hh & Hf & Hc)|(Hh & Hf)]].
-      * exfalso. unfold legit_err in L. cbn [k_params k_times] in L. rewrite Hk, Hc in L.
-        cbn in L. rewrite Bool.orb_true_r in L. discriminate.
-      * exfalso. unfold legit_err in L. cbn [k_params k_times] in L. rewrite Hh in L.
-        unfold in_chain in Hc. assert ((0 <? p_from p) && (net_head times <? p_from p) = true) by lia.
-        rewrite H in L. rewrite Bool.orb_true_r in L. discriminate.
-      * unfold window_mode, hash_unset. rewrite Hh, Hf. cbn. rewrite SC.
-        destruct (_ || _); [discriminate|]. destruct (is_far _ _ _); discriminate.
-  - discriminate.
-  - discriminate.
-Qed.
